@@ -417,7 +417,8 @@ impl Engine for C01 {
                                 res.stats.outcome("ok");
                                 classes.push("ok".into());
                             }
-                            Some(c) if c == 1 || c == 2 => {
+                            // any non-zero status is "an error" (101 = Rust panic is handled above)
+                            Some(c) if c != 0 && c != 101 => {
                                 res.stats.outcome("err");
                                 classes.push("err".into());
                                 if stderr.trim().is_empty() {
